@@ -2,6 +2,14 @@
 //! lkmex-transfer, locked-token-wrapper and a real fees-collector as the sink of penalty fees,
 //! driven through the white-box VM.  Serves C08, C09 (and the energy clause of C20).
 //! Model: lean/MxModel/Core/Energy.lean.
+//!
+//! The account `FARM` (id 9) is a REAL smart-contract account (a deployed, never-called
+//! farm-with-locked-rewards object: `is_smart_contract(farm)` is true): it can be whitelisted, calls
+//! `lockVirtual` for users and for itself, holds locked tokens, has an energy entry and calls the
+//! factory / token-unstake like a user (a vault that farms in its own name).  It is snapshotted and
+//! printed like a user (`farm=` entry at the end of the state line) and is part of every supply sum.
+//! The C08 oracle is the ATTRIBUTED form (Props/C08Attr): a signed ledger kept from REAL balance
+//! deltas (the change of the holder's row is booked on the transaction's energy address).
 
 use mxharness::*;
 use num_bigint::{BigInt, BigUint, Sign};
@@ -57,6 +65,8 @@ type WrObj = locked_token_wrapper::ContractObj<DebugApi>;
 type WrW = ContractObjWrapper<WrObj, fn() -> WrObj>;
 type CollObj = fees_collector::ContractObj<DebugApi>;
 type CollW = ContractObjWrapper<CollObj, fn() -> CollObj>;
+type FarmObj = farm_with_locked_rewards::ContractObj<DebugApi>;
+type FarmW = ContractObjWrapper<FarmObj, fn() -> FarmObj>;
 
 fn fac_builder() -> FacObj {
     energy_factory::contract_obj()
@@ -72,6 +82,9 @@ fn wr_builder() -> WrObj {
 }
 fn coll_builder() -> CollObj {
     fees_collector::contract_obj()
+}
+fn farm_builder() -> FarmObj {
+    farm_with_locked_rewards::contract_obj()
 }
 
 type MBig = multiversx_sc::types::BigUint<DebugApi>;
@@ -168,6 +181,10 @@ struct Snap {
     bp: u64,
     wl: Vec<u64>,
     users: Vec<USnap>,
+    /// the FARM contract account, a first-class holder
+    farm: USnap,
+    /// the account every id outside the world maps to (not printed; part of the supply sums)
+    nobody: USnap,
     fac: Vec<BigUint>,
     un: Vec<BigUint>,
     un_base: BigUint,
@@ -183,6 +200,30 @@ struct Snap {
     circ: BigUint,
     pp: BigUint,
     coll_cell: BigUint,
+}
+
+impl Snap {
+    /// the account with model id `id`
+    fn acc(&self, id: u64) -> &USnap {
+        if id == FARM {
+            &self.farm
+        } else if id >= 1 && (id as usize) <= self.users.len() {
+            &self.users[(id - 1) as usize]
+        } else {
+            &self.nobody
+        }
+    }
+    /// every account that can hold locked tokens / have an entry, with its id (0 = `nobody`)
+    fn accounts(&self) -> Vec<(u64, &USnap)> {
+        let mut v: Vec<(u64, &USnap)> = self.users.iter().enumerate().map(|(i, u)| (i as u64 + 1, u)).collect();
+        v.push((FARM, &self.farm));
+        v.push((0, &self.nobody));
+        v
+    }
+}
+
+fn acc_name(id: u64) -> String {
+    if id == FARM { "farm".into() } else if id == 0 { "nobody".into() } else { format!("u{id}") }
 }
 
 #[derive(Clone, Default, Debug, PartialEq)]
@@ -201,6 +242,9 @@ struct EnergyWorld {
     owner: Address,
     users: Vec<Address>,
     farm: Address,
+    #[allow(dead_code)]
+    farm_sc: FarmW,
+    nobody: Address,
     fac: FacW,
     un: UnW,
     tr: TrW,
@@ -216,17 +260,31 @@ struct EnergyWorld {
     g: Ghost,
     pending: Vec<String>,
     last_quote: Option<(String, BigUint)>,
+    /// C08 attribution ledger (Props/C08Attr `attr`): account id -> signed row over the nonces,
+    /// accumulated from REAL balance deltas: the change of the holder's row in a successful
+    /// transaction is booked on the energy address of that transaction
+    attr: std::collections::BTreeMap<u64, Vec<BigInt>>,
+    /// a separating op (merge for another account / lockVirtual with energy address != destination)
+    /// has succeeded in this history: from then on holder and attributed account may differ
+    separated: bool,
 }
 
 impl EnergyWorld {
+    fn in_world(&self, id: u64) -> bool {
+        id == FARM || (id >= 1 && (id as usize) <= self.users.len())
+    }
+    /// key of an account id in the attribution ledger (ids outside the world share `nobody` = 0)
+    fn key(&self, id: u64) -> u64 {
+        if self.in_world(id) { id } else { 0 }
+    }
     fn addr(&self, id: u64) -> Address {
         if id == FARM {
             self.farm.clone()
         } else if id >= 1 && (id as usize) <= self.users.len() {
             self.users[(id - 1) as usize].clone()
         } else {
-            // ids outside the world act as the farm account (never holds anything)
-            self.farm.clone()
+            // ids outside the world act as one extra user account without funds
+            self.nobody.clone()
         }
     }
     fn lbal(&self, a: &Address, n: u64) -> BigUint {
@@ -267,7 +325,9 @@ impl EnergyWorld {
     fn snap(&mut self) -> Snap {
         self.refresh_nonces();
         let mut s = Snap { epoch: self.epoch, nonces: self.nonces.clone(), wnonces: self.wnonces.clone(), ..Default::default() };
-        let users = self.users.clone();
+        let nusers = self.users.len();
+        // users, then the FARM contract account, then `nobody`
+        let users: Vec<Address> = self.users.iter().cloned().chain([self.farm.clone(), self.nobody.clone()]).collect();
         let sc_addrs: Vec<Address> = vec![
             self.fac.address_ref().clone(),
             self.un.address_ref().clone(),
@@ -275,7 +335,7 @@ impl EnergyWorld {
             self.wr.address_ref().clone(),
             self.coll.address_ref().clone(),
         ];
-        let cand: Vec<(u64, Address)> = (1..=users.len() as u64).map(|i| (i, self.addr(i))).chain(std::iter::once((FARM, self.farm.clone()))).collect();
+        let cand: Vec<(u64, Address)> = (1..=nusers as u64).map(|i| (i, self.addr(i))).chain(std::iter::once((FARM, self.farm.clone()))).collect();
         // ---- factory: energy entries, options, pause, whitelist
         let mut ents: Vec<(Option<(BigInt, u64, BigUint)>, (BigInt, u64, BigUint), BigUint)> = vec![];
         let mut scv: Vec<(BigInt, BigUint)> = vec![];
@@ -343,7 +403,7 @@ impl EnergyWorld {
         // ---- lkmex-transfer: pending transfers, cooldown records
         let mut xf: Vec<(u64, u64, u64, Pays)> = vec![];
         let (mut sl, mut rl) = (vec![], vec![]);
-        let ids: Vec<(u64, Address)> = (1..=users.len() as u64).map(|i| (i, self.addr(i))).collect();
+        let ids: Vec<(u64, Address)> = (1..=nusers as u64).map(|i| (i, self.addr(i))).collect();
         self.b
             .execute_query(&self.tr, |sc| {
                 for (ri, ra) in ids.iter() {
@@ -403,14 +463,20 @@ impl EnergyWorld {
             for q in us.queue.iter() {
                 pp += &q.2 - &q.3;
             }
-            s.users.push(us);
+            if i < nusers {
+                s.users.push(us);
+            } else if i == nusers {
+                s.farm = us;
+            } else {
+                s.nobody = us;
+            }
         }
         s.fac = self.row(&sc_addrs[0]);
         s.un = self.row(&sc_addrs[1]);
         s.tr = self.row(&sc_addrs[2]);
         s.wr = self.row(&sc_addrs[3]);
         let collr = self.row(&sc_addrs[4]);
-        let extra = [self.owner.clone(), self.farm.clone()];
+        let extra = [self.owner.clone()];
         for a in sc_addrs.iter().chain(extra.iter()) {
             base_supply += self.b.get_esdt_balance(a, BASE, 0);
         }
@@ -437,17 +503,20 @@ impl EnergyWorld {
     }
 
     fn state_line(&self, s: &Snap) -> String {
-        let mut us = vec![];
-        for (i, u) in s.users.iter().enumerate() {
+        let show_acc = |name: &str, u: &USnap| -> String {
             let raw = match &u.raw {
                 None => "-".to_string(),
                 Some((e, l, t)) => format!("{e},{l},{t}"),
             };
             let q = or_dash(u.queue.iter().map(|(a, b, c, d)| format!("{a},{b},{c},{d}")).collect::<Vec<_>>().join(";"));
-            us.push(format!(
-                "u{}={}/{}/{},{},{}/{}/{}/{}",
-                i + 1, u.base, raw, u.view.0, u.view.2, u.amount, show_row(&u.locked), show_row(&u.wrapped), q
-            ));
+            format!(
+                "{}={}/{}/{},{},{}/{}/{}/{}",
+                name, u.base, raw, u.view.0, u.view.2, u.amount, show_row(&u.locked), show_row(&u.wrapped), q
+            )
+        };
+        let mut us = vec![];
+        for (i, u) in s.users.iter().enumerate() {
+            us.push(show_acc(&format!("u{}", i + 1), u));
         }
         let mut xs = s.xfers.clone();
         xs.sort_by(|a, b| (a.0, a.1).cmp(&(b.0, b.1)));
@@ -455,11 +524,12 @@ impl EnergyWorld {
         let last = |v: &Vec<(u64, u64)>| or_dash(v.iter().map(|(u, e)| format!("{u}:{e}")).collect::<Vec<_>>().join(","));
         let opts: Vec<(u64, BigUint)> = s.opts.iter().map(|(e, p)| (*e, BigUint::from(*p))).collect();
         format!(
-            "ep={} ps={} N={} WN={} opts={} bp={} wl={} {} fac={} un={}/{} tr={} wr={} x={} sl={} rl={} sce={} bs={} ci={} pp={} pb={} co={} mu={} me={} bl={} bc={} vl={}",
+            "ep={} ps={} N={} WN={} opts={} bp={} wl={} {} fac={} un={}/{} tr={} wr={} x={} sl={} rl={} sce={} bs={} ci={} pp={} pb={} co={} mu={} me={} bl={} bc={} vl={} {}",
             s.epoch, if s.paused { 1 } else { 0 }, show_u64s(&s.nonces), show_u64s(&s.wnonces), show_pays(&opts, ","), s.bp,
             show_u64s(&s.wl), us.join(" "), show_row(&s.fac), show_row(&s.un), s.un_base, show_row(&s.tr), show_row(&s.wr),
             x, last(&s.sl), last(&s.rl), if s.sce { 1 } else { 0 }, s.base_supply, s.circ, s.pp,
-            self.g.pb, self.g.co, self.g.mu, self.g.me, self.g.bl, self.g.bc, self.g.vl
+            self.g.pb, self.g.co, self.g.mu, self.g.me, self.g.bl, self.g.bc, self.g.vl,
+            show_acc("farm", &s.farm)
         )
     }
 }
@@ -493,13 +563,16 @@ impl World for EnergyWorld {
             b.set_esdt_balance(&u, BASE, &funds);
             users.push(u);
         }
-        let farm = b.create_user_account(&zero);
+        let nobody = b.create_user_account(&zero);
         b.set_block_epoch(ep0);
         let fac: FacW = b.create_sc_account(&zero, Some(&owner), fac_builder as fn() -> FacObj, "energy factory");
         let un: UnW = b.create_sc_account(&zero, Some(&owner), un_builder as fn() -> UnObj, "token unstake");
         let tr: TrW = b.create_sc_account(&zero, Some(&owner), tr_builder as fn() -> TrObj, "lkmex transfer");
         let wr: WrW = b.create_sc_account(&zero, Some(&owner), wr_builder as fn() -> WrObj, "wrapper");
         let coll: CollW = b.create_sc_account(&zero, Some(&owner), coll_builder as fn() -> CollObj, "fees collector");
+        // FARM: a real smart-contract account (never called; it is the CALLER / holder / energy address)
+        let farm_sc: FarmW = b.create_sc_account(&zero, Some(&owner), farm_builder as fn() -> FarmObj, "farm vault");
+        let farm = farm_sc.address_ref().clone();
         let (fa, ua, ta, wa, ca) = (
             fac.address_ref().clone(),
             un.address_ref().clone(),
@@ -552,9 +625,10 @@ impl World for EnergyWorld {
         b.set_esdt_local_roles(&ca, LOCKED, &[EsdtLocalRole::NftBurn]);
         let base_init = &funds * BigUint::from(nusers);
         EnergyWorld {
-            b, owner, users, farm, fac, un, tr, wr, coll,
+            b, owner, users, farm, farm_sc, nobody, fac, un, tr, wr, coll,
             epoch: ep0, unbond, min_lock, cooldown,
             nonces: vec![], wnonces: vec![], base_init, g: Ghost::default(), pending: vec![], last_quote: None,
+            attr: Default::default(), separated: false,
         }
     }
 
@@ -588,6 +662,8 @@ struct Info {
     pays: Pays,
     arg_epochs: u64,
     dest: u64,
+    /// (holder, energy address) of the transaction = `Op.parties` of Lemmas/EnergyAttrStep
+    parties: Option<(u64, u64)>,
 }
 
 impl EnergyWorld {
@@ -608,6 +684,7 @@ impl EnergyWorld {
                 inf.who = c;
                 inf.arg_epochs = ep;
                 inf.dest = if d == 0 { c } else { d };
+                inf.parties = Some((inf.dest, inf.dest));
                 inf.pays = vec![(0, amt.clone())];
                 let ca = self.addr(c);
                 let da = self.addr(d);
@@ -625,6 +702,7 @@ impl EnergyWorld {
                 inf.who = c;
                 inf.arg_epochs = ep;
                 inf.dest = if d == 0 { c } else { d };
+                inf.parties = Some((c, c));
                 inf.pays = vec![(nn, amt.clone())];
                 let ca = self.addr(c);
                 let da = self.addr(d);
@@ -641,6 +719,7 @@ impl EnergyWorld {
                 let c = u64of(w[1]);
                 let ps = parse_pays(w[2], ',');
                 inf.who = c;
+                inf.parties = Some((c, c));
                 inf.pays = ps.clone();
                 let ca = self.addr(c);
                 let mut o = BigUint::zero();
@@ -663,6 +742,7 @@ impl EnergyWorld {
                 let ps = parse_pays(w[3], ',');
                 inf.who = c;
                 inf.dest = if orig == 0 { c } else { orig };
+                inf.parties = Some((c, inf.dest));
                 inf.pays = ps.clone();
                 let ca = self.addr(c);
                 let oa = self.addr(orig);
@@ -683,6 +763,7 @@ impl EnergyWorld {
             "unlockEarly" => {
                 let (c, nn, amt) = (u64of(w[1]), u64of(w[2]), big(w[3]));
                 inf.who = c;
+                inf.parties = Some((c, c));
                 inf.pays = vec![(nn, amt.clone())];
                 let ca = self.addr(c);
                 let r = self.b.execute_esdt_transfer(&ca, &self.fac, LOCKED, nn, &amt, |sc| {
@@ -693,6 +774,7 @@ impl EnergyWorld {
             "reduce" => {
                 let (c, nn, amt, ep) = (u64of(w[1]), u64of(w[2]), big(w[3]), u64of(w[4]));
                 inf.who = c;
+                inf.parties = Some((c, c));
                 inf.arg_epochs = ep;
                 inf.pays = vec![(nn, amt.clone())];
                 let ca = self.addr(c);
@@ -711,6 +793,7 @@ impl EnergyWorld {
                 inf.who = c;
                 inf.arg_epochs = ep;
                 inf.dest = d;
+                inf.parties = Some((d, ea));
                 inf.pays = vec![(0, amt.clone())];
                 let (ca, da, eaa) = (self.addr(c), self.addr(d), self.addr(ea));
                 let mut o = (0u64, BigUint::zero());
@@ -739,6 +822,7 @@ impl EnergyWorld {
             "cancel" => {
                 let c = u64of(w[1]);
                 inf.who = c;
+                inf.parties = Some((c, c));
                 let ca = self.addr(c);
                 let mut cnt = 0u64;
                 let r = self.b.execute_tx(&ca, &self.un, &zero, |sc| {
@@ -753,6 +837,7 @@ impl EnergyWorld {
                 let ps = parse_pays(w[3], ',');
                 inf.who = c;
                 inf.dest = rcv;
+                inf.parties = Some((c, c));
                 inf.pays = ps.clone();
                 let (ca, ra) = (self.addr(c), self.addr(rcv));
                 let r = if ps.is_empty() {
@@ -766,6 +851,7 @@ impl EnergyWorld {
                 let (c, sd) = (u64of(w[1]), u64of(w[2]));
                 inf.who = c;
                 inf.dest = sd;
+                inf.parties = Some((c, c));
                 let (ca, sa) = (self.addr(c), self.addr(sd));
                 self.b.execute_tx(&ca, &self.tr, &zero, |sc| sc.withdraw(managed_address!(&sa))).result_status == 0
             }
@@ -773,12 +859,14 @@ impl EnergyWorld {
                 let (sd, rcv) = (u64of(w[1]), u64of(w[2]));
                 inf.who = sd;
                 inf.dest = rcv;
+                inf.parties = Some((sd, sd));
                 let (sa, ra) = (self.addr(sd), self.addr(rcv));
                 self.b.execute_tx(&owner, &self.tr, &zero, |sc| sc.cancel_transfer(managed_address!(&sa), managed_address!(&ra))).result_status == 0
             }
             "wrap" => {
                 let (c, nn, amt) = (u64of(w[1]), u64of(w[2]), big(w[3]));
                 inf.who = c;
+                inf.parties = Some((c, c));
                 inf.pays = vec![(nn, amt.clone())];
                 let ca = self.addr(c);
                 let mut o = (0u64, BigUint::zero());
@@ -792,6 +880,7 @@ impl EnergyWorld {
             "unwrap" => {
                 let (c, wn, amt) = (u64of(w[1]), u64of(w[2]), big(w[3]));
                 inf.who = c;
+                inf.parties = Some((c, c));
                 inf.pays = vec![(wn, amt.clone())];
                 let ca = self.addr(c);
                 let mut o = (0u64, BigUint::zero());
@@ -863,6 +952,7 @@ impl EnergyWorld {
         let post = self.snap();
         if ok {
             self.update_ghosts(&site, &pre, &post, &mut inf);
+            self.update_attr(&pre, &post, &inf);
         }
         let post_line = self.state_line(&post);
         self.oracles(tr, &site, &pre, &post, ok, &inf, &pre_line, &post_line);
@@ -876,6 +966,26 @@ impl EnergyWorld {
         }
     }
 
+    /// the attribution ledger of Props/C08Attr (`attrStep`), from the REAL balance rows: the change of the
+    /// holder's row in a successful transaction is booked on the energy address of that transaction
+    fn update_attr(&mut self, pre: &Snap, post: &Snap, inf: &Info) {
+        if let Some((h, ea)) = inf.parties {
+            let (r0, r1) = (&pre.acc(h).locked, &post.acc(h).locked);
+            let k = self.key(ea);
+            let row = self.attr.entry(k).or_default();
+            if row.len() < r1.len() {
+                row.resize(r1.len(), BigInt::zero());
+            }
+            for (n, b) in r1.iter().enumerate() {
+                let a = r0.get(n).cloned().unwrap_or_default();
+                row[n] += BigInt::from(b.clone()) - BigInt::from(a);
+            }
+            if self.key(h) != k {
+                self.separated = true;
+            }
+        }
+    }
+
     /// ledger counters are accumulated from the balance deltas actually observed
     fn update_ghosts(&mut self, site: &str, pre: &Snap, post: &Snap, inf: &mut Info) {
         let up = |a: &BigUint, b: &BigUint| if b > a { b - a } else { BigUint::zero() };
@@ -885,7 +995,7 @@ impl EnergyWorld {
             "unlock" => self.g.mu += up(&pre.base_supply, &post.base_supply),
             "unlockEarly" => {
                 self.g.me += up(&pre.base_supply, &post.base_supply);
-                if let Some(q) = post.users.get((inf.who - 1) as usize).and_then(|u| u.queue.last()) {
+                if let Some(q) = post.acc(inf.who).queue.last() {
                     inf.outs = (&q.2 - &q.3, q.3.clone(), BigUint::zero());
                 }
             }
@@ -1094,6 +1204,13 @@ impl EnergyWorld {
                 }
             }
         }
+        // holdings of the FARM contract account (FARM, nonce, amount, unlock)
+        let mut fhold: Vec<(u64, u64, BigUint, u64)> = vec![];
+        for (k, a) in s.farm.locked.iter().enumerate() {
+            if !a.is_zero() {
+                fhold.push((FARM, k as u64 + 1, a.clone(), s.nonces[k]));
+            }
+        }
         let listed = |rng: &mut Rng| -> u64 {
             if s.opts.is_empty() || rng.chance(1, 12) {
                 *rng.pick(&[0u64, 1, 359, 361, 5000])
@@ -1121,6 +1238,7 @@ impl EnergyWorld {
             13, // 16 advance
             5,  // 17 queries
             3,  // 18 malformed
+            8,  // 19 the FARM contract account acting for itself / holding for users
         ];
         let mut k = rng.weighted(&weights);
         if step < 4 && rng.chance(2, 3) {
@@ -1129,14 +1247,14 @@ impl EnergyWorld {
         if hold.is_empty() && matches!(k, 1 | 2 | 3 | 4 | 5 | 8 | 11) && rng.chance(4, 5) {
             k = 0;
         }
-        let any_queue = s.users.iter().any(|x| !x.queue.is_empty());
-        let any_ripe = s.users.iter().any(|x| x.queue.first().map(|q| q.0 <= now).unwrap_or(false));
+        let any_queue = s.users.iter().chain(std::iter::once(&s.farm)).any(|x| !x.queue.is_empty());
+        let any_ripe = s.users.iter().chain(std::iter::once(&s.farm)).any(|x| x.queue.first().map(|q| q.0 <= now).unwrap_or(false));
         let any_expired = hold.iter().any(|h| h.3 <= now);
         if (k == 6 || k == 7) && !any_queue && rng.chance(4, 5) {
             k = 4;
         }
         if k == 6 && any_queue && !any_ripe && rng.chance(1, 2) {
-            let t = s.users.iter().filter_map(|x| x.queue.first().map(|q| q.0)).min().unwrap();
+            let t = s.users.iter().chain(std::iter::once(&s.farm)).filter_map(|x| x.queue.first().map(|q| q.0)).min().unwrap();
             return ('O', format!("advance {}", t.max(now)));
         }
         if k == 2 && !any_expired && !hold.is_empty() && rng.chance(3, 5) {
@@ -1224,10 +1342,10 @@ impl EnergyWorld {
                 if k == 2 {
                     ('O', format!("unlock {} {}", usr, show_pays(&ps, ",")))
                 } else {
-                    // a whitelisted contract naming somebody else as original caller is trusted to hold
-                    // the tokens on that account's behalf (energy and tokens part company by design):
-                    // only generated for callers that are NOT whitelisted, where it must fail
-                    let orig = match rng.below(10) { 0 => usr, 1 => if s.wl.contains(&usr) { usr } else { other(rng) }, _ => 0 };
+                    // a whitelisted caller naming somebody else as original caller is trusted to hold the
+                    // tokens on that account's behalf (energy and tokens part company by design: a separating
+                    // op, followed by the attributed oracle); for a caller that is not whitelisted it must fail
+                    let orig = match rng.below(10) { 0 => usr, 1 => other(rng), 2 => if s.wl.contains(&usr) { other(rng) } else { 0 }, _ => 0 };
                     ('O', format!("merge {} {} {}", usr, orig, show_pays(&ps, ",")))
                 }
             }
@@ -1266,8 +1384,8 @@ impl EnergyWorld {
                 }
             }
             6 | 7 => {
-                let withq: Vec<u64> = s.users.iter().enumerate().filter(|(_, x)| !x.queue.is_empty()).map(|(i, _)| i as u64 + 1).collect();
-                let ripe: Vec<u64> = s.users.iter().enumerate().filter(|(_, x)| x.queue.first().map(|q| q.0 <= now).unwrap_or(false)).map(|(i, _)| i as u64 + 1).collect();
+                let withq: Vec<u64> = s.accounts().into_iter().filter(|(i, x)| *i != 0 && !x.queue.is_empty()).map(|(i, _)| i).collect();
+                let ripe: Vec<u64> = s.accounts().into_iter().filter(|(i, x)| *i != 0 && x.queue.first().map(|q| q.0 <= now).unwrap_or(false)).map(|(i, _)| i).collect();
                 let c = if k == 6 && !ripe.is_empty() && rng.chance(4, 5) { *rng.pick(&ripe) } else if !withq.is_empty() && rng.chance(9, 10) { *rng.pick(&withq) } else { u };
                 ('O', format!("{} {}", if k == 6 { "claim" } else { "cancel" }, c))
             }
@@ -1340,7 +1458,17 @@ impl EnergyWorld {
                 }
                 let amt = match rng.below(5) { 0 => one.clone(), 1 => BigUint::zero(), _ => rng.magnitude(24) };
                 let c = if rng.chance(1, 8) { u } else { FARM };
-                ('O', format!("lockVirtual {} {} {} {} {}", c, amt, listed(rng), u, u))
+                // (destination, energy address): a user for itself, the contract for itself, and the two
+                // separating shapes (holder != energy address) of C08Attr.separating_ops
+                let (d, ea) = match rng.below(12) {
+                    0..=3 => (u, u),
+                    4..=6 => (FARM, FARM),
+                    7 | 8 => (FARM, u),
+                    9 => (u, FARM),
+                    10 => (u, other(rng)),
+                    _ => (u, u),
+                };
+                ('O', format!("lockVirtual {} {} {} {} {}", c, amt, listed(rng), d, ea))
             }
             15 => match rng.below(10) {
                 0 | 1 => {
@@ -1422,7 +1550,7 @@ impl EnergyWorld {
             }
             17 => {
                 if rng.chance(1, 4) {
-                    return ('Q', format!("energy {}", u));
+                    return ('Q', format!("energy {}", if rng.chance(1, 4) { FARM } else { u }));
                 }
                 let last = s.opts.last().map(|o| o.0).unwrap_or(360);
                 let prev = match rng.below(6) {
@@ -1440,6 +1568,121 @@ impl EnergyWorld {
                 };
                 let amt = match rng.below(4) { 0 => one.clone(), 1 => BigUint::from(10_000u32), _ => rng.magnitude(30) };
                 ('Q', format!("penalty {} {} {}", amt, prev, new))
+            }
+            19 => {
+                // ---- the FARM contract account: locks rewards for itself / holds them for a user, and later
+                // spends its tokens through the factory like any holder (the SC account is the caller)
+                if !s.wl.contains(&FARM) && rng.chance(3, 4) {
+                    return ('O', format!("whitelist {}", FARM));
+                }
+                let mag = |rng: &mut Rng| match rng.below(4) { 0 => BigUint::from(rng.range(1, 20_000)), _ => rng.magnitude(24) };
+                if (fhold.is_empty() && s.farm.queue.is_empty()) || rng.chance(1, 6) {
+                    let ea = if rng.chance(2, 3) { FARM } else { u };
+                    return ('O', format!("lockVirtual {} {} {} {} {}", FARM, mag(rng), listed(rng), FARM, ea));
+                }
+                let live: Vec<&(u64, u64, BigUint, u64)> = fhold.iter().filter(|h| h.3 > now).collect();
+                let dead: Vec<&(u64, u64, BigUint, u64)> = fhold.iter().filter(|h| h.3 <= now).collect();
+                let pick_live = |rng: &mut Rng| -> (u64, u64, BigUint, u64) {
+                    if !live.is_empty() && rng.chance(9, 10) { (*rng.pick(&live)).clone() } else if !fhold.is_empty() { rng.pick(&fhold).clone() } else { (FARM, 1, one.clone(), now + 360) }
+                };
+                match rng.below(12) {
+                    0 | 1 => {
+                        let h = pick_live(rng);
+                        let amt = Self::amt_of(rng, &h.2);
+                        let op = format!("unlockEarly {} {} {}", FARM, h.1, amt);
+                        let prev = h.3.saturating_sub(now);
+                        if rng.chance(1, 3) && prev > 0 {
+                            return self.quote_then(format!("penalty {} {} 0", amt, prev), op);
+                        }
+                        ('O', op)
+                    }
+                    2 => {
+                        let h = if fhold.is_empty() { pick_live(rng) } else { rng.pick(&fhold).clone() };
+                        let mut ep = listed(rng);
+                        for _ in 0..3 {
+                            if now + ep - (now + ep) % 30 > h.3 { break; }
+                            ep = listed(rng);
+                        }
+                        ('O', format!("extend {} {} {} {} 0", FARM, h.1, Self::amt_of(rng, &h.2), ep))
+                    }
+                    3 => {
+                        let h = pick_live(rng);
+                        let prev = h.3.saturating_sub(now);
+                        let mut ep = listed(rng);
+                        for _ in 0..4 {
+                            if ep >= 30 && ep - (now + ep) % 30 < prev { break; }
+                            ep = listed(rng);
+                        }
+                        ('O', format!("reduce {} {} {} {}", FARM, h.1, Self::amt_of(rng, &h.2), ep))
+                    }
+                    4 | 5 => {
+                        if dead.is_empty() && !fhold.is_empty() && rng.chance(3, 4) {
+                            let t = fhold.iter().map(|h| h.3).min().unwrap() + rng.range(0, 40);
+                            return ('O', format!("advance {}", t.max(now)));
+                        }
+                        let mut ps: Pays = vec![];
+                        for h in dead.iter().take(rng.range(1, 3) as usize) {
+                            ps.push((h.1, Self::amt_of(rng, &h.2)));
+                        }
+                        if ps.is_empty() {
+                            let h = pick_live(rng);
+                            ps.push((h.1, h.2.clone()));
+                        }
+                        ('O', format!("unlock {} {}", FARM, show_pays(&ps, ",")))
+                    }
+                    6 => {
+                        // merge of its own tokens, for itself
+                        let mut ps: Pays = vec![];
+                        for h in live.iter().take(rng.range(1, 3) as usize) {
+                            ps.push((h.1, Self::amt_of(rng, &h.2)));
+                        }
+                        if ps.is_empty() {
+                            let h = pick_live(rng);
+                            ps.push((h.1, h.2.clone()));
+                        }
+                        ('O', format!("merge {} {} {}", FARM, if rng.chance(1, 3) { FARM } else { 0 }, show_pays(&ps, ",")))
+                    }
+                    7 | 8 => {
+                        // merge on behalf of a user (original caller != caller): the user's entry pays and
+                        // receives the energy, the tokens stay with the contract; mostly within the user's total
+                        let best = (1..=nu).max_by_key(|i| s.users[(*i - 1) as usize].view.2.clone()).unwrap_or(u);
+                        let orig = if rng.chance(4, 5) { best } else { u };
+                        let mut room = s.users[(orig - 1) as usize].view.2.clone();
+                        let mut ps: Pays = vec![];
+                        for h in live.iter().take(rng.range(1, 3) as usize) {
+                            let mut a = Self::amt_of(rng, &h.2);
+                            if a > room && rng.chance(9, 10) { a = room.clone(); }
+                            if a.is_zero() && rng.chance(9, 10) { continue; }
+                            room = if room > a { &room - &a } else { BigUint::zero() };
+                            ps.push((h.1, a));
+                        }
+                        if ps.is_empty() {
+                            // nothing attributed to the user yet: hold a reward for it first
+                            return ('O', format!("lockVirtual {} {} {} {} {}", FARM, mag(rng), listed(rng), FARM, orig));
+                        }
+                        ('O', format!("merge {} {} {}", FARM, orig, show_pays(&ps, ",")))
+                    }
+                    9 => {
+                        if !s.farm.queue.is_empty() {
+                            let ripe = s.farm.queue.first().map(|q| q.0 <= now).unwrap_or(false);
+                            if !ripe && rng.chance(1, 3) {
+                                return ('O', format!("advance {}", s.farm.queue[0].0.max(now)));
+                            }
+                            return ('O', format!("{} {}", if ripe && rng.chance(2, 3) { "claim" } else { "cancel" }, FARM));
+                        }
+                        let h = pick_live(rng);
+                        ('O', format!("unlockEarly {} {} {}", FARM, h.1, Self::amt_of(rng, &h.2)))
+                    }
+                    10 => {
+                        // base tokens the contract got from unlock / claim are locked again by itself
+                        let have = s.farm.base.clone();
+                        if have.is_zero() {
+                            return ('O', format!("lockVirtual {} {} {} {} {}", FARM, mag(rng), listed(rng), FARM, FARM));
+                        }
+                        ('O', format!("lock {} {} {} {}", FARM, Self::amt_of(rng, &have), listed(rng), if rng.chance(1, 4) { u } else { 0 }))
+                    }
+                    _ => ('O', format!("lockVirtual {} {} {} {} {}", FARM, mag(rng), listed(rng), FARM, u)),
+                }
             }
             _ => {
                 let kinds = ["wrongTokenLock", "baseToUnlockEarly", "baseToUnlock", "baseToWrap", "baseToLockFunds",
@@ -1495,31 +1738,67 @@ fn som(e: u64) -> u64 {
 }
 
 impl EnergyWorld {
-    /// C08 on one snapshot
+    /// C08 on one snapshot, for EVERY account (users, the FARM contract account, `nobody`):
+    /// the ATTRIBUTED form — entry = (Σ attr·(unlock − now), Σ attr), depleted to now, with `attr` the signed
+    /// ledger kept from real balance deltas — always; the HELD form (Σ over the tokens the account holds)
+    /// as long as no separating op (merge for another account, lockVirtual with energy address ≠
+    /// destination) has succeeded in the history, where the two must coincide (C08Attr.attr_eq_holdings)
     fn oracle_c08(&self, tr: &mut Trace, site: &str, s: &Snap) {
-        for (i, u) in s.users.iter().enumerate() {
+        let empty: Vec<BigInt> = vec![];
+        for (id, u) in s.accounts() {
+            let name = acc_name(id);
+            let row = self.attr.get(&id).unwrap_or(&empty);
             let mut exp_e = BigInt::zero();
-            let mut exp_t = BigUint::zero();
-            for (k, a) in u.locked.iter().enumerate() {
+            let mut exp_t = BigInt::zero();
+            for (k, a) in row.iter().enumerate() {
                 let d = BigInt::from(s.nonces[k]) - BigInt::from(s.epoch);
-                exp_e += BigInt::from(a.clone()) * d;
+                exp_e += a * d;
                 exp_t += a;
             }
             if u.view.0 != exp_e {
-                tr.fail("C08", "energy_eq_sum", site, &format!("u{} entry {} but sum amount*(unlock-now) = {}", i + 1, u.view.0, exp_e));
+                tr.fail("C08", "energy_eq_attr_sum", site, &format!("{} entry {} but sum attributed*(unlock-now) = {}", name, u.view.0, exp_e));
             }
-            if u.view.2 != exp_t {
-                tr.fail("C08", "total_eq_sum", site, &format!("u{} total_locked {} but sum of amounts = {}", i + 1, u.view.2, exp_t));
+            if BigInt::from(u.view.2.clone()) != exp_t {
+                tr.fail("C08", "total_eq_attr_sum", site, &format!("{} total_locked {} but sum of attributed amounts = {}", name, u.view.2, exp_t));
             }
             if u.view.1 != s.epoch {
-                tr.fail("C08", "view_depleted_to_now", site, &format!("u{} last_update {} now {}", i + 1, u.view.1, s.epoch));
+                tr.fail("C08", "view_depleted_to_now", site, &format!("{} last_update {} now {}", name, u.view.1, s.epoch));
             }
-            let pos = if exp_e.sign() == Sign::Plus { exp_e.magnitude().clone() } else { BigUint::zero() };
+            let pos = if u.view.0.sign() == Sign::Plus { u.view.0.magnitude().clone() } else { BigUint::zero() };
             if u.amount != pos {
-                tr.fail("C08", "amount_view", site, &format!("u{} getEnergyAmountForUser {} expected {}", i + 1, u.amount, pos));
+                tr.fail("C08", "amount_view", site, &format!("{} getEnergyAmountForUser {} expected {}", name, u.amount, pos));
             }
             if exp_e.sign() == Sign::Minus {
                 tr.count("branch.negative_energy");
+            }
+            if id == FARM && !exp_t.is_zero() {
+                tr.count("branch.farm_has_energy");
+            }
+            if row.iter().any(|a| a.sign() == Sign::Minus) {
+                tr.count("branch.negative_attribution");
+            }
+            if self.separated {
+                if row.iter().enumerate().any(|(k, a)| *a != BigInt::from(u.locked[k].clone())) {
+                    tr.count("branch.attributed_ne_held");
+                }
+                continue;
+            }
+            // ---- no separating op so far: attribution = holding, the held form of the property
+            let mut held_e = BigInt::zero();
+            let mut held_t = BigUint::zero();
+            for (k, a) in u.locked.iter().enumerate() {
+                let d = BigInt::from(s.nonces[k]) - BigInt::from(s.epoch);
+                held_e += BigInt::from(a.clone()) * d;
+                held_t += a;
+                if row.get(k).cloned().unwrap_or_default() != BigInt::from(a.clone()) {
+                    tr.fail("C08", "attr_eq_holdings", site, &format!("{} nonce {}: attributed {} held {} without any separating op", name, k + 1, row.get(k).cloned().unwrap_or_default(), a));
+                }
+            }
+            if u.view.0 != held_e {
+                tr.fail("C08", "energy_eq_sum", site, &format!("{} entry {} but sum amount*(unlock-now) = {}", name, u.view.0, held_e));
+            }
+            if u.view.2 != held_t {
+                tr.fail("C08", "total_eq_sum", site, &format!("{} total_locked {} but sum of amounts = {}", name, u.view.2, held_t));
             }
         }
         if s.sce || s.sc_views.iter().any(|(e, t)| !e.is_zero() || !t.is_zero()) {
@@ -1557,32 +1836,34 @@ impl EnergyWorld {
         }
         // ---- nobody but the caller / the named destination is touched
         if inf.who != 0 {
-            for (i, (a, b)) in pre.users.iter().zip(post.users.iter()).enumerate() {
-                let id = i as u64 + 1;
-                if id == inf.who || id == inf.dest {
+            let ea = inf.parties.map(|p| p.1).unwrap_or(0);
+            let touched = [self.key(inf.who), self.key(inf.dest), self.key(ea)];
+            for ((id, a), (_, b)) in pre.accounts().into_iter().zip(post.accounts().into_iter()) {
+                if touched.contains(&id) {
                     continue;
                 }
                 if a.base != b.base || a.raw != b.raw || a.locked.iter().ne(b.locked.iter().take(a.locked.len())) || a.wrapped.iter().ne(b.wrapped.iter().take(a.wrapped.len())) || a.queue != b.queue {
-                    tr.fail("C09", "others_untouched", site, &format!("u{} changed by a transaction of u{}", id, inf.who));
+                    tr.fail("C09", "others_untouched", site, &format!("{} changed by a transaction of {}", acc_name(id), acc_name(inf.who)));
                 }
             }
         }
         let now = pre.epoch;
-        let w = (inf.who.max(1) - 1) as usize;
+        let w = inf.who;
+        let (pw, qw) = (pre.acc(w), post.acc(w));
         let zero = BigUint::zero();
         let new_nonces = BigUint::from((post.nonces.len() - pre.nonces.len()) as u64);
         if !new_nonces.is_zero() {
             tr.count("branch.new_nonce");
         }
         let unlock_of = |n: u64| -> u64 { if n >= 1 && (n as usize) <= post.nonces.len() { post.nonces[(n - 1) as usize] } else { 0 } };
-        let lk = |s: &Snap, u: usize, n: u64| -> BigUint { s.users.get(u).and_then(|x| x.locked.get((n.max(1) - 1) as usize)).cloned().unwrap_or_default() };
+        let lk = |s: &Snap, u: u64, n: u64| -> BigUint { s.acc(u).locked.get((n.max(1) - 1) as usize).cloned().unwrap_or_default() };
         let dco = if post.coll_cell >= pre.coll_cell { &post.coll_cell - &pre.coll_cell } else { zero.clone() };
         let bp = BigUint::from(pre.bp);
         let m = BigUint::from(MAXPCT);
         match site {
             "lock" | "lockVirtual" => {
                 let amt = &inf.pays[0].1;
-                let d = (inf.dest - 1) as usize;
+                let d = inf.dest;
                 let unlock = som(now + inf.arg_epochs);
                 let nn = inf.outs.0.to_string().parse::<u64>().unwrap();
                 let got = &lk(post, d, nn) - &lk(pre, d, nn);
@@ -1593,7 +1874,7 @@ impl EnergyWorld {
                     tr.fail("C09", "lock_1to1", site, "locked-token supply did not grow by exactly the locked amount");
                 }
                 if site == "lock" {
-                    let paid = &pre.users[w].base - &post.users[w].base;
+                    let paid = &pw.base - &qw.base;
                     if paid != *amt || &pre.base_supply - &post.base_supply != *amt {
                         tr.fail("C09", "lock_burns_base", site, &format!("paid {} supply change {} for amount {}", paid, &pre.base_supply - &post.base_supply, amt));
                     }
@@ -1606,7 +1887,7 @@ impl EnergyWorld {
                 let (n0, amt) = &inf.pays[0];
                 let nn = inf.outs.0.to_string().parse::<u64>().unwrap();
                 let unlock = som(now + inf.arg_epochs);
-                let tot = |s: &Snap| -> BigUint { s.users[w].locked.iter().sum() };
+                let tot = |s: &Snap| -> BigUint { s.acc(w).locked.iter().sum() };
                 if inf.outs.1 != *amt || tot(pre) != tot(post) || unlock_of(nn) != unlock || unlock <= unlock_of(*n0) || post.base_supply != pre.base_supply
                     || &post.locked_supply - &pre.locked_supply != new_nonces {
                     tr.fail("C09", "extend_1to1", site, &format!("amount {} -> {} unlock {} -> {}", amt, inf.outs.1, unlock_of(*n0), unlock_of(nn)));
@@ -1622,7 +1903,7 @@ impl EnergyWorld {
                     if unlock_of(*nn) < now { tr.count("branch.unlock_after_expiry"); }
                     if unlock_of(*nn) == now { tr.count("branch.unlock_at_epoch"); }
                 }
-                let got = &post.users[w].base - &pre.users[w].base;
+                let got = &qw.base - &pw.base;
                 if got != tot || inf.outs.0 != tot || &post.base_supply - &pre.base_supply != tot || &pre.locked_supply - &post.locked_supply != tot {
                     tr.fail("C09", "unlock_1to1", site, &format!("unlocked {} received {} result {}", tot, got, inf.outs.0));
                 }
@@ -1644,7 +1925,7 @@ impl EnergyWorld {
                 if unlock_of(nn) != exp || exp <= now {
                     tr.fail("C08", "merge_epoch", site, &format!("merged unlock epoch {} expected {}", unlock_of(nn), exp));
                 }
-                let totl = |s: &Snap| -> BigUint { s.users[w].locked.iter().sum() };
+                let totl = |s: &Snap| -> BigUint { s.acc(w).locked.iter().sum() };
                 if inf.outs.1 != tot || totl(pre) != totl(post) || &post.locked_supply - &pre.locked_supply != new_nonces || inf.pays.iter().any(|p| unlock_of(p.0) <= now) {
                     tr.fail("C09", "merge_1to1", site, &format!("merged {} -> {}", tot, inf.outs.1));
                 }
@@ -1674,11 +1955,11 @@ impl EnergyWorld {
                 }
                 if site == "unlockEarly" {
                     let rest = amt - &pen;
-                    let q = post.users[w].queue.last().cloned().unwrap_or_default();
-                    if post.users[w].queue.len() != pre.users[w].queue.len() + 1 || q != (now + self.unbond, *n0, amt.clone(), rest.clone()) {
+                    let q = qw.queue.last().cloned().unwrap_or_default();
+                    if qw.queue.len() != pw.queue.len() + 1 || q != (now + self.unbond, *n0, amt.clone(), rest.clone()) {
                         tr.fail("C09", "unbond_entry", site, &format!("queue entry {:?} expected ({}, {}, {}, {})", q, now + self.unbond, n0, amt, rest));
                     }
-                    if post.users[w].base != pre.users[w].base || &post.un_base - &pre.un_base != rest || &post.base_supply - &pre.base_supply != rest || post.locked_supply != pre.locked_supply {
+                    if qw.base != pw.base || &post.un_base - &pre.un_base != rest || &post.base_supply - &pre.base_supply != rest || post.locked_supply != pre.locked_supply {
                         tr.fail("C09", "early_unlock_mints_remainder_into_escrow", site, &format!("supply change {} escrow change {} expected {}", &post.base_supply - &pre.base_supply, &post.un_base - &pre.un_base, rest));
                     }
                 } else {
@@ -1695,7 +1976,7 @@ impl EnergyWorld {
                 }
             }
             "claim" => {
-                let (q0, q1) = (&pre.users[w].queue, &post.users[w].queue);
+                let (q0, q1) = (&pw.queue, &qw.queue);
                 let cnt = q0.len() - q1.len();
                 if cnt == 0 || cnt > 20 || q0[cnt..] != q1[..] || BigUint::from(cnt as u64) != inf.outs.1 {
                     tr.fail("C09", "claim_fifo", site, &format!("queue {} -> {} entries, result count {}", q0.len(), q1.len(), inf.outs.1));
@@ -1717,7 +1998,7 @@ impl EnergyWorld {
                     tr.fail("C09", "claim_fifo", site, "a ripe entry was left in the queue");
                 }
                 if cnt == 20 { tr.count("branch.claim_cap_20"); }
-                let got = &post.users[w].base - &pre.users[w].base;
+                let got = &qw.base - &pw.base;
                 if got != paid || inf.outs.0 != paid || post.base_supply != pre.base_supply || &pre.un_base - &post.un_base != paid {
                     tr.fail("C09", "claim_pays_remainder", site, &format!("paid {} expected {}", got, paid));
                 }
@@ -1726,16 +2007,16 @@ impl EnergyWorld {
                 }
             }
             "cancel" => {
-                let q0 = &pre.users[w].queue;
+                let q0 = &pw.queue;
                 let back: BigUint = q0.iter().map(|q| q.3.clone()).sum();
-                let mut okk = post.users[w].queue.is_empty() && !q0.is_empty();
+                let mut okk = qw.queue.is_empty() && !q0.is_empty();
                 for n in 1..=post.nonces.len() as u64 {
                     let exp: BigUint = q0.iter().filter(|q| q.1 == n).map(|q| q.2.clone()).sum();
                     if &lk(post, w, n) - &lk(pre, w, n) != exp { okk = false; }
                 }
                 if q0.iter().any(|q| unlock_of(q.1) < now) { tr.count("branch.cancel_expired_token"); }
                 if q0.iter().any(|q| unlock_of(q.1) == now) { tr.count("branch.cancel_at_unlock_epoch"); }
-                if !okk || &pre.base_supply - &post.base_supply != back || &pre.un_base - &post.un_base != back || post.users[w].base != pre.users[w].base || post.locked_supply != pre.locked_supply {
+                if !okk || &pre.base_supply - &post.base_supply != back || &pre.un_base - &post.un_base != back || qw.base != pw.base || post.locked_supply != pre.locked_supply {
                     tr.fail("C09", "cancel_burns_base_returns_locked", site, &format!("base burned {} expected {}", &pre.base_supply - &post.base_supply, back));
                 }
             }
